@@ -245,3 +245,37 @@ def fitting_fn(env, corpus):
         return cache[key]
 
     return fit
+
+
+@st.composite
+def literal_table_case(draw):
+    """>= 4 methods keyed by distinct Literals at the first position (the lookup-table path of the generated
+    dispatcher); some of them carry a second value-dependent condition at another position."""
+    h = {"classes": [{"bases": []}]}
+    ng = draw(st.integers(4, 6))
+    pool = draw(st.permutations([0, 1, 2, 3, 4, 5, 6, 7, 8, 9]))
+    groups, i = [], 0
+    for _ in range(ng):
+        sz = draw(st.sampled_from([1, 1, 2]))
+        groups.append(list(pool[i:i + sz]))
+        i += sz
+    two = draw(st.integers(0, 3)) > 0
+    seconds = [["cls", "int"], ["dep", ["cls", "int"], "pos"], ["dep", ["cls", "int"], "even"], ["lit", [0]],
+               ["cls", "Number"], ["obj"]]
+    methods = []
+    for j, g in enumerate(groups):
+        pos = [{"name": "a0", "ann": ["lit", g]}]
+        if two:
+            pos.append({"name": "a1", "ann": draw(st.sampled_from(seconds[:4] if draw(st.integers(0, 2)) == 0 else seconds[:1]))})
+        methods.append({"id": j, "pos": pos, "kw": [], "prio": 0})
+    fb = [{"name": "a0", "ann": ["cls", "int"]}] + ([{"name": "a1", "ann": ["cls", "int"]}] if two else [])
+    methods.append({"id": len(methods), "pos": fb, "kw": [], "prio": 0})
+    methods.append({"id": len(methods), "pos": [dict(p, ann=["obj"]) for p in fb], "kw": [], "prio": -1})
+    calls = []
+    for _ in range(draw(st.integers(4, 10))):
+        a = [["int", draw(st.sampled_from(list(pool[:i]) + [11, -1]))]]
+        if two:
+            a.append(["int", draw(st.sampled_from([-2, -1, 0, 1, 2, 3, 150]))])
+        calls.append({"args": a, "kw": {}, "script": []})
+    return {"hier": h, "methods": methods, "host": draw(st.sampled_from(["func", "func", "attr", "mc"])), "calls": calls}
+
